@@ -948,3 +948,165 @@ def _set_elementwise(op, swapped):
 for _op in ARITH:
     _set_elementwise(_op, False)
     _set_elementwise(_op, True)
+
+
+# ------------------------------------------------------------------------------------------------ parser: visitors
+from pyvc.values import Rec
+from .common import VersionK
+
+PTP = PARSER + "_ParseTreeProcessor."
+NodeK = Rec("Node", text=Str)
+
+
+@class_spec(PARSER + "_ParseTreeProcessor")
+class _PTPSpec:
+    fields = {}
+
+
+def INT_LITERAL_OK(text, base):
+    """the text (digit separators removed) is an integer literal acceptable to int(text, base)"""
+    if smt():
+        from pyvc.values import Str as _S
+
+        return X.INT_OK(X.STRREPL(_S.unwrap(text), z3.StringVal("_"), z3.StringVal("")), z3.IntVal(base))
+    try:
+        int(text.replace("_", ""), base)
+        return True
+    except ValueError:
+        return False
+
+
+def INT_LITERAL_VALUE(text, base):
+    if smt():
+        from pyvc.values import Str as _S
+
+        return z3.ToReal(X.INT_VALUE(X.STRREPL(_S.unwrap(text), z3.StringVal("_"), z3.StringVal("")), z3.IntVal(base)))
+    return fractions.Fraction(int(text.replace("_", ""), base))
+
+
+def REAL_LITERAL_OK(text):
+    if smt():
+        from pyvc.values import Str as _S
+
+        return X.FRAC_OK(X.STRREPL(_S.unwrap(text), z3.StringVal("_"), z3.StringVal("")))
+    try:
+        fractions.Fraction(text.replace("_", ""))
+        return True
+    except (ValueError, ZeroDivisionError):
+        return False
+
+
+def REAL_LITERAL_VALUE(text):
+    if smt():
+        from pyvc.values import Str as _S
+
+        return X.FRAC_VALUE(X.STRREPL(_S.unwrap(text), z3.StringVal("_"), z3.StringVal("")))
+    return fractions.Fraction(text.replace("_", ""))
+
+
+def _literal_visitor(name, ok, value):
+    class _C:
+        """Precondition = what the grammar rule guarantees about the matched text (checked against the real grammar by
+        the bounded literal enumeration, see EXTRA_CHECKS); then the visitor cannot raise and yields the literal's value."""
+        params = dict(node=NodeK, _c=X.OpaqueK)
+        returns = RATR
+
+        def pre(s):
+            return {"matches-rule": ok(s.node.text)}
+
+        def post(s):
+            return {"class": is_rat(s.result), "value": rv(s.result) == value(s.node.text)}
+
+    _C.__name__ = "_Visit" + name
+    contract(PTP + name, props=P)(_C)
+
+
+_literal_visitor("visit_literal_integer", lambda t: INT_LITERAL_OK(t, 0), lambda t: INT_LITERAL_VALUE(t, 0))
+_literal_visitor("visit_literal_integer_decimal", lambda t: INT_LITERAL_OK(t, 10), lambda t: INT_LITERAL_VALUE(t, 10))
+_literal_visitor("visit_literal_real", REAL_LITERAL_OK, REAL_LITERAL_VALUE)
+
+
+def _bool_literal(name, v):
+    class _C:
+        params = dict(_n=X.OpaqueK, _c=X.OpaqueK)
+        returns = BOOLR
+
+        def post(s):
+            return {"class": is_bool(s.result), "value": BOOL_EQ(bv(s.result), v)}
+
+    _C.__name__ = "_Visit" + name
+    contract(PTP + name, props=P)(_C)
+
+
+_bool_literal("visit_literal_boolean_true", True)
+_bool_literal("visit_literal_boolean_false", False)
+
+
+def _string_literal(name):
+    class _C:
+        params = dict(node=NodeK, _c=X.OpaqueK)
+        returns = STRR
+        raises = {"DSDLSyntaxError": None}
+        pre = _ParseStringLiteral.pre
+        pre = staticmethod(lambda s: _ParseStringLiteral.pre(type("NS", (), {"literal": s.node.text})))
+
+        def post(s):
+            return {"class": is_str(s.result)}
+
+    _C.__name__ = "_Visit" + name
+    contract(PTP + name, props=P)(_C)
+
+
+_string_literal("visit_literal_string_single_quoted")
+_string_literal("visit_literal_string_double_quoted")
+
+
+@contract(PTP + "visit_literal_set", props=P)
+class _VisitLiteralSet:
+    """`{ e1, e2, ... }`: the children are (brace, blank, expression list, blank, brace)."""
+    params = dict(_n=X.OpaqueK, children=X.TupleOf(X.OpaqueK, X.OpaqueK, SeqOf(ObjOf(ANY)), X.OpaqueK, X.OpaqueK))
+    returns = SETR
+    raises = {"InvalidOperandError": lambda s: OR(COLL_EMPTY(s.children[2]), NOT(COLL_HOMOGENEOUS(s.children[2])))}
+
+    def post(s):
+        return {"class": is_set(s.result), "members": COLL_SAME(s.result, s.children[2])}
+
+
+@contract(PARSER + "_unwrap_array_capacity", props=P)
+class _UnwrapArrayCapacity:
+    params = dict(ex=ObjOf(ANY))
+    returns = Int
+    raises = {"InvalidOperandError": lambda s: AND(is_rat(s.ex), lambda: NOT(IS_INT(rv(s.ex)))),
+              "InvalidDefinitionError": lambda s: NOT(is_rat(s.ex))}
+
+    def post(s):
+        return {"value": REAL(s.result) == rv(s.ex)}
+
+
+@contract(PTP + "visit_type_version_specifier", props=P)
+class _VisitVersionSpecifier:
+    """`major.minor`: the children are (decimal integer literal, dot, decimal integer literal) - Rationals by the grammar."""
+    params = dict(_n=X.OpaqueK, children=X.TupleOf(ObjOf(RATIONAL_X), X.OpaqueK, ObjOf(RATIONAL_X)))
+    returns = VersionK
+    raises = {"InvalidOperandError": lambda s: OR(NOT(IS_INT(rv(s.children[0]))), NOT(IS_INT(rv(s.children[2]))))}
+
+    def post(s):
+        return {"major": REAL(s.result.major) == rv(s.children[0]), "minor": REAL(s.result.minor) == rv(s.children[2])}
+
+
+def _unary_form(name, defined, value):
+    class _C:
+        params = dict(_n=X.OpaqueK, children=X.TupleOf(X.OpaqueK, X.OpaqueK, ObjOf(ANY)))
+        returns = ObjOf(ANY)
+        raises = {"UndefinedOperatorError": lambda s: NOT(defined(s.children[2]))}
+
+        def post(s):
+            return {"value": value(s.children[2], s.result)}
+
+    _C.__name__ = "_Visit" + name
+    contract(PTP + name, props=P)(_C)
+
+
+_unary_form("visit_op1_form_log_not", is_bool, lambda x, res: AND(is_bool(res), lambda: BOOL_EQ(bv(res), NOT(bv(x)))))
+_unary_form("visit_op1_form_inv_pos", is_rat, lambda x, res: AND(is_rat(res), lambda: rv(res) == rv(x)))
+_unary_form("visit_op1_form_inv_neg", is_rat, lambda x, res: AND(is_rat(res), lambda: rv(res) == -rv(x)))
